@@ -64,6 +64,23 @@ impl Distribute for C05FirstShard {
     }
 }
 
+/// After a few hangs the remaining protocol runs of this process are not attempted any more (they are
+/// reported as `timeout …`, which never equals a model answer), so a broken tree fails fast.
+static C05_TIMEOUTS: AtomicUsize = AtomicUsize::new(0);
+
+fn c05_run<F: std::future::Future<Output = String>>(secs: u64, fut: F) -> String {
+    if C05_TIMEOUTS.load(Ordering::SeqCst) >= 3 {
+        return "timeout (not run: three earlier cases hung)".into();
+    }
+    match block_on_timeout(secs, fut) {
+        Ok(s) => s,
+        Err(t) => {
+            C05_TIMEOUTS.fetch_add(1, Ordering::SeqCst);
+            t
+        }
+    }
+}
+
 fn c05_err_kind(e: &crate::error::Error) -> String {
     let s = format!("{e}");
     let k = if matches!(e, crate::error::Error::ShuffleValidationFailed(_)) {
@@ -127,14 +144,14 @@ c05_e2e_impl!(c05_e2e_112, BA112);
 macro_rules! c05_dispatch_e2e {
     ($f:ident, $shards:expr, $dist:expr, $mal:expr, $seed:expr, $rows:expr) => {
         match ($shards, $dist) {
-            (1, "rr") => block_on_timeout(60, $f::<1, RoundRobinInputDistribution>($mal, $seed, $rows)),
-            (2, "rr") => block_on_timeout(60, $f::<2, RoundRobinInputDistribution>($mal, $seed, $rows)),
-            (3, "rr") => block_on_timeout(60, $f::<3, RoundRobinInputDistribution>($mal, $seed, $rows)),
-            (2, "rnd") => block_on_timeout(60, $f::<2, RandomInputDistribution>($mal, $seed, $rows)),
-            (3, "rnd") => block_on_timeout(60, $f::<3, RandomInputDistribution>($mal, $seed, $rows)),
-            (2, "last") => block_on_timeout(60, $f::<2, C05LastShard>($mal, $seed, $rows)),
-            (3, "last") => block_on_timeout(60, $f::<3, C05LastShard>($mal, $seed, $rows)),
-            (3, "first") => block_on_timeout(60, $f::<3, C05FirstShard>($mal, $seed, $rows)),
+            (1, "rr") => c05_run(30, $f::<1, RoundRobinInputDistribution>($mal, $seed, $rows)),
+            (2, "rr") => c05_run(30, $f::<2, RoundRobinInputDistribution>($mal, $seed, $rows)),
+            (3, "rr") => c05_run(30, $f::<3, RoundRobinInputDistribution>($mal, $seed, $rows)),
+            (2, "rnd") => c05_run(30, $f::<2, RandomInputDistribution>($mal, $seed, $rows)),
+            (3, "rnd") => c05_run(30, $f::<3, RandomInputDistribution>($mal, $seed, $rows)),
+            (2, "last") => c05_run(30, $f::<2, C05LastShard>($mal, $seed, $rows)),
+            (3, "last") => c05_run(30, $f::<3, C05LastShard>($mal, $seed, $rows)),
+            (3, "first") => c05_run(30, $f::<3, C05FirstShard>($mal, $seed, $rows)),
             (s, d) => panic!("harness: unsupported shards/distribution {s}/{d}"),
         }
     };
@@ -155,10 +172,7 @@ fn c05_exec_e2e(t: &[&str]) -> String {
         "112" => c05_dispatch_e2e!(c05_e2e_112, shards, t[4], mal, seed, rows),
         b => panic!("harness: unsupported row width {b}"),
     };
-    match r {
-        Ok(s) => s,
-        Err(t) => t,
-    }
+    r
 }
 
 fn c05_gf(v: u32) -> Gf32Bit {
@@ -234,15 +248,12 @@ fn c05_exec_addtags(t: &[&str]) -> String {
     let key: u128 = t[3].parse().unwrap();
     let rows: Vec<u128> = parse_nat_list(t[4]);
     let r = match t[1] {
-        "32" => block_on_timeout(60, c05_addtags_32(seed, key, rows)),
-        "64" => block_on_timeout(60, c05_addtags_64(seed, key, rows)),
-        "112" => block_on_timeout(60, c05_addtags_112(seed, key, rows)),
+        "32" => c05_run(30, c05_addtags_32(seed, key, rows)),
+        "64" => c05_run(30, c05_addtags_64(seed, key, rows)),
+        "112" => c05_run(30, c05_addtags_112(seed, key, rows)),
         b => panic!("harness: unsupported row width {b}"),
     };
-    match r {
-        Ok(s) => s,
-        Err(t) => t,
-    }
+    r
 }
 
 fn c05_role(s: &str) -> Role {
@@ -334,9 +345,9 @@ fn c05_exec_tamper(t: &[&str]) -> String {
     macro_rules! go {
         ($f:ident) => {
             match shards {
-                1 => block_on_timeout(90, $f::<1>(seed, nrows, attacker, gate, dest, byte, mask, nth)),
-                2 => block_on_timeout(90, $f::<2>(seed, nrows, attacker, gate, dest, byte, mask, nth)),
-                3 => block_on_timeout(90, $f::<3>(seed, nrows, attacker, gate, dest, byte, mask, nth)),
+                1 => c05_run(45, $f::<1>(seed, nrows, attacker, gate, dest, byte, mask, nth)),
+                2 => c05_run(45, $f::<2>(seed, nrows, attacker, gate, dest, byte, mask, nth)),
+                3 => c05_run(45, $f::<3>(seed, nrows, attacker, gate, dest, byte, mask, nth)),
                 s => panic!("harness: unsupported shard count {s}"),
             }
         };
@@ -347,10 +358,7 @@ fn c05_exec_tamper(t: &[&str]) -> String {
         "112" => go!(c05_tamper_112),
         b => panic!("harness: unsupported row width {b}"),
     };
-    match r {
-        Ok(s) => s,
-        Err(t) => t,
-    }
+    r
 }
 
 pub fn c05_exec(req: &str) -> String {
